@@ -64,7 +64,7 @@ def margin_ok(base, out, key):
 def run(ctx, scratch):
     rng = ctx.rng
     quick = ctx.tier == 'quick'
-    reps = 3 if quick else 25
+    reps = 8 if quick else 40
     nmax = 9 if quick else 20
     with Impl(scratch) as impl:
         desc = impl.call('registry', 'describe', None, timeout=120)['ok']
@@ -114,7 +114,8 @@ def run(ctx, scratch):
                     if 'ok' not in base:
                         continue
                     _mod(ctx, name, out, s2, opts, fmt + '/' + dt)
-                    bad = compare(base['ok'], out['ok'], rtol=1e-6, atol=1e-8, skip_tags=skip)
+                    rt, at = (2e-3, 2e-4) if (name in ('PageRank[diteration]', 'PageRank[push]') and fmt == 'csr_unsorted') else (1e-6, 1e-8)
+                    bad = compare(base['ok'], out['ok'], rtol=rt, atol=at, skip_tags=skip)   # float32 sweep kernels: the sweep order follows the storage order
                     if base_name(name) in CLASSIFIERS:
                         bad = [(k, why) for (k, why) in bad if not (k.startswith('labels') and margin_ok(base['ok'], out['ok'], k))]
                     if bad:
